@@ -102,6 +102,7 @@ class Obs:
         self.conn_count = 0
         self.post_close_timers: list[str] = []
         self.post_close_open: list[str] = []
+        self.post_close_blocked: list[str] = []
         self.turn_inconsistency: list[str] = []
         self.reuse: list[str] = []
         self.end_time = 0.0
@@ -148,6 +149,8 @@ def run(case: dict, *, count_only: bool = False) -> Obs:
     if not case.get("auto", True):
         dev.auto = set()
     dev.latency = int(case.get("latency", 1)) * D
+    if case.get("noise_mute"):
+        dev.noise_mute = True
     if case.get("invalid_password"):
         dev.invalid_password = True
     if case.get("api_major") is not None:
@@ -392,6 +395,13 @@ def run(case: dict, *, count_only: bool = False) -> Obs:
                 if it == c_it + 3:
                     # "its transport and socket are closed": not only at quiescence -- a socket still open three turns
                     # after the close is an open socket for as long as the peer chooses (stalled peer, unsent buffer)
+                    # "no task stays blocked on it": a caller still inside a connect phase of this connection three turns
+                    # after it closed is blocked on a dead connection
+                    mt = env.task("main")
+                    if (mt is not None and not mt.done() and cid == len(env.conns) - 1 and not case.get("on_stop_reconnect")
+                            and not any(e["kind"] == "phase_return" for e in env.trace)  # (between the two phases the caller is not waiting on it)
+                            and any(e["kind"] == "conn_start_called" and e["conn"] == cid for e in env.trace)):
+                        obs.post_close_blocked.append(f"conn{cid}: the connect call is still pending three loop turns after the connection closed (t={loop.now():.3f})")
                     for tr_ in env.transports:
                         if tr_.conn_id == cid and not tr_.sock.closed:
                             obs.post_close_open.append(f"conn{cid}: socket #{tr_.sock.idx} still open three loop turns after the connection closed ({len(tr_.buffer)} unsent bytes in the transport buffer)")
@@ -661,6 +671,19 @@ def oracle_c08(obs: Obs) -> list[Violation]:
         v.append(Violation("C08", "c08:loop-callback-raised:" + x.split(":", 1)[0], x))
     for x in obs.post_close_open[:1]:
         v.append(Violation("C08", "c08:socket-open-after-close", x))
+    for x in obs.post_close_blocked[:1]:
+        v.append(Violation("C08", "c08:connect-call-blocked-after-close", x))
+    # a connection that has closed opens no socket any more
+    tcp_conn = {}
+    cur = None
+    for e in obs.trace:
+        if e["kind"] == "conn_start_called":
+            cur = e["conn"]
+        elif e["kind"] == "tcp_start" and cur is not None:
+            cs = closed_seq.get(cur)
+            if cs is not None and e["seq"] > cs:
+                v.append(Violation("C08", "c08:tcp-attempt-after-close", f"conn{cur}: TCP connect started at seq {e['seq']} after CLOSED at seq {cs}"))
+                break
     for x in obs.post_close_timers[:1]:
         v.append(Violation("C08", "c08:timer-armed-after-close:" + x.split(":", 1)[1], x))
     kinds = sorted({a.split(":")[0] + (":" + a.split(":")[1] if a.startswith(("timer", "task")) else "") for a in obs.audit})
@@ -765,6 +788,8 @@ def case_strategy(draw, tier: str = "quick", max_events: int = 4, min_events: in
         c["gap"] = draw(st.integers(0, 3))
     if draw(st.integers(0, 9)) == 0:
         c["auto"] = False
+    if c["noise"] and draw(st.integers(0, 11)) == 4:
+        c["noise_mute"] = True
     if draw(st.integers(0, 2)) == 0:
         c["hello_extra"] = draw(
             st.one_of(
